@@ -141,6 +141,8 @@ type vsStore struct {
 	inner storage.Storage
 	// hook is called before and after every Put/Delete: (op, key, phase "before"|"after")
 	hook func(op, key, phase string)
+	// listHook is called in every List after the records were read, before they are returned
+	listHook func()
 }
 
 func (s *vsStore) Put(key string, value interface{}) error {
@@ -154,7 +156,13 @@ func (s *vsStore) Put(key string, value interface{}) error {
 	return err
 }
 func (s *vsStore) Get(key string) (interface{}, error) { return s.inner.Get(key) }
-func (s *vsStore) List() ([]interface{}, error)        { return s.inner.List() }
+func (s *vsStore) List() ([]interface{}, error) {
+	l, err := s.inner.List()
+	if s.listHook != nil {
+		s.listHook()
+	}
+	return l, err
+}
 func (s *vsStore) Delete(key string) error {
 	if s.hook != nil {
 		s.hook("delete", key, "before")
